@@ -8,8 +8,12 @@ class AnchorLost(Exception):
     """An anchor (function, field, table) the rule is keyed on is gone: fail closed."""
 
 
-def short(path):
-    return path
+_LT = re.compile(r"(::)?<('[a-z_0-9]+(, )?)+>")
+
+
+def norm_path(p):
+    """strip lifetime-only generic segments: Foo::<'a>::bar -> Foo::bar, Foo<'a> -> Foo"""
+    return _LT.sub("", p) if "'" in p else p
 
 
 class Call:
@@ -20,9 +24,9 @@ class Call:
         self.bb = bb
         self.term = term
         c = term["callee"]
-        self.path = c["path"]
-        self.res = c["res"]
-        self.name = c["res"] or c["path"]
+        self.path = norm_path(c["path"])
+        self.res = norm_path(c["res"])
+        self.name = self.res or self.path
         self.gargs = c["gargs"]
         self.unsafe = c.get("unsafe", False)
         self.args = term["args"]
@@ -67,9 +71,9 @@ class Fn:
     def __init__(self, prog, raw):
         self.prog = prog
         self.raw = raw
-        self.path = raw["path"]
+        self.path = norm_path(raw["path"])
         self.kind = raw["kind"]
-        self.parent = raw["parent"]
+        self.parent = norm_path(raw["parent"])
         self.file = raw["sp"][0]
         self.lo = raw["sp"][1]
         self.hi = raw["sp"][2]
@@ -77,7 +81,7 @@ class Fn:
         self.locals = raw["locals"]
         self.argc = raw["argc"]
         self.vis = raw["vis"]
-        self.impl_self = raw["impl_self"]
+        self.impl_self = norm_path(raw["impl_self"])
         self.trait_impl = raw["trait_impl"]
         self._succ = None
         self._pred = None
@@ -364,6 +368,17 @@ class Program:
         hits = [f for f in self.fns.values() if f.kind == "assoc_fn" and f.impl_self == self_ty and f.path.rsplit("::", 1)[-1] == name]
         if len(hits) != 1:
             raise AnchorLost(f"method `{self_ty}::{name}`: {len(hits)} candidates")
+        return hits[0]
+
+    def impl_fn(self, self_ty_rx, trait_rx, name):
+        """unique method `name` of `impl <trait_rx> for <self_ty_rx>` (regexes on printed types)"""
+        hits = [
+            f
+            for f in self.fns.values()
+            if f.kind == "assoc_fn" and f.trait_impl and re.search(trait_rx, f.trait_impl) and re.search(self_ty_rx, f.impl_self) and re.sub(r"#\d+$", "", f.path).rsplit("::", 1)[-1] == name
+        ]
+        if len(hits) != 1:
+            raise AnchorLost(f"impl {trait_rx} for {self_ty_rx}::{name}: {len(hits)} candidates")
         return hits[0]
 
     def methods_of(self, self_ty):
